@@ -628,15 +628,19 @@ def run(ctx):
         if big:
             d2 = [s for s in d2 if sum(len(T[n]) for n in s) < 400 or len(s) == 1]
         pool = CORE + [n for n in T if n.startswith(("z", "!z", "bin-max", "!bin-max", "bin0-half", "cont1-half", "!cont1-half"))]
-        d3 = [s for s in sequences(T, 3 if ctx.quick else 4, pool) if len(s) >= 3 and sum(len(T[n]) for n in s) < 400]
+        d3 = [s for s in sequences(T, 3, pool) if len(s) >= 3 and sum(len(T[n]) for n in s) < 400]
+        if not ctx.quick:
+            # four tokens: over the core alphabet only (the extended pool to the fourth power is beyond an hour)
+            d3 += [s for s in sequences(T, 4, CORE) if len(s) == 4 and sum(len(T[n]) for n in s) < 400]
         for i in range(0, len(d2), 150):
             jobs.append((cfg, d2[i:i + 150], True, True))
-        # every pair of cuts for the sequences of three tokens; the (much more numerous and longer) sequences of four
-        # get every single cut and byte-at-a-time
-        d3a = [s for s in d3 if len(s) <= 3]
-        d3b = [s for s in d3 if len(s) > 3]
+        # thorough: every pair of cuts for the three-token sequences over the core alphabet; the other three-token
+        # sequences and the four-token ones get every single cut and byte-at-a-time
+        core = set(CORE)
+        d3a = [s for s in d3 if len(s) <= 3 and not ctx.quick and all(n in core for n in s)]     # + every pair of cuts
+        d3b = [s for s in d3 if not (len(s) <= 3 and not ctx.quick and all(n in core for n in s))]
         for i in range(0, len(d3a), 300):
-            jobs.append((cfg, d3a[i:i + 300], not ctx.quick, True))
+            jobs.append((cfg, d3a[i:i + 300], True, True))
         for i in range(0, len(d3b), 300):
             jobs.append((cfg, d3b[i:i + 300], False, True))
     for cfg in (CONFIGS[:5] if ctx.quick else CONFIGS):
